@@ -692,7 +692,7 @@ def run_bounded(harness: Harness, tier="quick", seed=0):
 def run_task(name, tier="quick", seed=0, budget_s=None):
     """Entry point of a pool worker."""
     harness = REGISTRY[name]
-    budget = budget_s or harness.timeout or (240 if tier == "quick" else 1500)
+    budget = budget_s or ((harness.timeout or 240) * (1 if tier == "quick" else 5))
     old = signal.signal(signal.SIGALRM, _on_alarm)
     signal.alarm(int(budget))
     t0 = time.time()
